@@ -102,6 +102,10 @@ def gen_harnesses(tier, seed):
     vm("c11_haskey", [("HasKey['a']", "isinstance(v, dict) and 'a' in v"), ("HasKey['a', 'b']", "isinstance(v, dict) and 'a' in v and 'b' in v")],
        "i: int, j: int, x: int", "{('a', 'b', 'c')[i % 3]: x, ('a', 'b', 'c')[j % 3]: x}", None, prelude=PRE, extra_static=("dict", "object"),
        warm=("{'a': 1}", "{'a': 1, 'b': 2}", "{'c': 1}"))
+    ENUM = "import enum\nclass Color(enum.IntEnum):\n    RED = 1\n    BLUE = 2\nclass Mode(enum.Enum):\n    A = 'a'\n    B = 'b'\nINF = float('inf')"
+    vm("c11_literal_enum", [("Literal[Color.RED]", "isinstance(v, Color) and v == 1"), ("Literal[Mode.A]", "isinstance(v, Mode) and v is Mode.A")],
+       "a: int, k: int", "(a, Color.RED, Color.BLUE, Mode.A, Mode.B)[k % 5]", None, prelude=ENUM, extra_static=("int", "object"),
+       warm=("1", "2", "Color.RED", "Color.BLUE", "Mode.A", "Mode.B"))
     vm("c11_literal_or", [("Literal[1] | Literal[2]", "isinstance(v, int) and v in (1, 2)"), ("Literal['a'] | Literal[3]", "(isinstance(v, str) and v == 'a') or (isinstance(v, int) and v == 3)")],
        "a: int, s: str, k: int", "(a, s)[k % 2]", "len(s) <= 2", extra_static=("int", "object"), warm=("1", "2", "3", "'a'"))
     return out
